@@ -662,6 +662,10 @@ func (r Registry[R, T]) LinkMessage(
 			r.hooks.OnClientConnect(remoteID)
 		}
 
+		if hooks.OnClientConnect != nil {
+			hooks.OnClientConnect(remoteID)
+		}
+
 		r.remotesLock.Unlock()
 
 		defer func() {
@@ -670,6 +674,10 @@ func (r Registry[R, T]) LinkMessage(
 
 			if r.hooks.OnClientDisconnect != nil {
 				r.hooks.OnClientDisconnect(remoteID)
+			}
+
+			if hooks.OnClientDisconnect != nil {
+				hooks.OnClientDisconnect(remoteID)
 			}
 
 			r.remotesLock.Unlock()
